@@ -170,6 +170,8 @@ def h_ctor(R: int, W: int, ai: int, bi: int, m0: bool, m1: bool, m2: bool, vecma
 
 # ------------------------------------------------------------------ ragged input is rejected
 def _reject_body(kind, R, W, R2, pos):
+    if R == 0 and kind in ('row-assign', 'region-assign', '>>list'):
+        return True      # no row 0 to assign / nothing to infer a column from on a zero-row table
     t = mk(R, W)
     m = model(R, W)
     made = None
@@ -240,12 +242,12 @@ REJECTS = ['Table(list)', 'Table(dict)', 'Vector(vectors)', '>>dict', '>>dict-ve
 
 def h_reject(R: int, W: int, R2: int, pos: int) -> bool:
     """
-    pre: 1 <= R <= 3 and 1 <= W <= 3 and 0 <= R2 <= 4 and 0 <= pos < W
+    pre: 0 <= R <= 3 and 1 <= W <= 3 and 0 <= R2 <= 4 and 0 <= pos < W
     post: _
     """
     H.reset()
     if H.skip(locals()): return True
-    r = H.concrete(_reject_body, H.cfg('kind'), H.among([1, 2, 3], R), H.among([1, 2, 3], W), H.among([0, 1, 2, 3, 4], R2), H.among([0, 1, 2], pos))
+    r = H.concrete(_reject_body, H.cfg('kind'), H.among([0, 1, 2, 3], R), H.among([1, 2, 3], W), H.among([0, 1, 2, 3, 4], R2), H.among([0, 1, 2], pos))
     if r is False: return False
     return H.ok()
 
@@ -361,7 +363,7 @@ def obligations(tier):
                             bounds='every shape 0..3 x 0..3; slice bounds in [-4,4] or None / every mask where they apply', smoke=[[2, 2, 0, 0, False, False, False, False], [3, 3, 0, 0, False, False, False, False]]))
     for kind in REJECTS:
         obs.append(dict(name='reject[%s]' % kind, fn='h_reject', config={'kind': kind}, budget=90 if q else 300,
-                        bounds='receiver 1..3 x 1..3, offending length / arity 0..4 at every column position', smoke=[[2, 2, 3, 0], [2, 2, 2, 1], [3, 2, 1, 1]]))
+                        bounds='receiver 0..3 x 1..3 (incl. zero-row tables), offending length / arity 0..4 at every column position', smoke=[[2, 2, 3, 0], [2, 2, 2, 1], [3, 2, 1, 1]]))
     for o0 in range(len(OPS)):
         obs.append(dict(name='hist[H=2,first=%s]' % OPS[o0], fn='h_hist', config={'o0': o0, 'H': 2}, budget=120 if q else 300,
                         bounds='every start shape 0..3 x 1..3, first operation fixed per job, every second operation of the 16-operation alphabet, 2 parameter values each; '
